@@ -83,6 +83,16 @@ def check(run: Run) -> None:
             run.check(g1, "C17.R2", fi, s, "guarded by callee is an ast.Attribute", "rewrite not guarded by isinstance(node.func, ast.Attribute)")
             run.check(g2, "C17.R2", fi, s, "guarded by func.attr in function_names", "rewrite not guarded by node.func.attr in function_names: non-operator methods are rewritten too")
     run.check(n_rewrite >= 1, "C17.R3", fi, fi.node, "a rewriting path exists", "no path builds the function-form call")
+    # every other handler of the transformer must traverse its node (all depths)
+    from ..visitors import dispatch_entries, unvisited_in_entry
+
+    for other in dispatch_entries(m, cls):
+        if other is fi:
+            continue
+        for s_, leaked, whole in unvisited_in_entry(ctx, other):
+            run.fail("C17.R1", other, s_, f"{other.name} returns {show(leaked)} without visiting it: method-form operator calls anywhere below such a node (in the receiver chain, in lambdas among its arguments) stay in method form", "return self.generic_visit(node)", show(whole)[:200])
+    extra = [n for n in cls.methods if n not in ("visit_Call",) and not n.startswith("visit_")]
+    run.notes["transform_calls_methods"] = sorted(cls.methods)
     _table_agreement(run, m)
 
 
